@@ -14,9 +14,11 @@ from mc import kernel, trees
 PROP = 'C15'
 
 FAULTS = {
-    'imm-range': ['addi x8, x8, 4096', 'lw x8, x8, -3000', 'lui x8, 0x100000', 'sw x8, x9, 2048', 'jalr x0, x1, 3', 'c.addi x8, 32\nc.nop'],
+    'imm-range': ['addi x8, x8, 4096', 'lw x8, x8, -3000', 'lui x8, 0x100000', 'sw x8, x9, 2048', 'jalr x0, x1, 3', 'c.addi x8, 32\nc.nop',
+                  # far outside: more digits than the interpreter converts to decimal text
+                  'addi x8, x8, 1 << 20000', 'addi x8, x8, -(10 ** 4400)', 'lui x8, 1 << 15000', 'c.addi x8, 1 << 20000\nc.nop'],
     'branch-reach': ['beq x8, x0, FAR', 'bne x8, x9, 5000', 'beqz x8, FAR', 'bgtu x5, x6, FAR', 'jal x0, 0x100000', 'beq x8, x0, 3'],
-    'data-range': ['dw 0x1ffffffff', 'ints -0x80000001', 'pack <I -1', 'bytes 1 2 3 256', 'shorts 1 65536', 'pack <i 0x80000000', 'longs 0x100000000', 'dw -0x80000001'],
+    'data-range': ['dw 0x1ffffffff', 'ints -0x80000001', 'pack <I -1', 'bytes 1 2 3 256', 'shorts 1 65536', 'pack <i 0x80000000', 'longs 0x100000000', 'dw -0x80000001', 'dw 1 << 20000', 'pack <I 10 ** 4400', 'dd -(1 << 20000)\nalign 4'],
     'shift-range': ['slli x8, x8, 32', 'srai x9, x9, 33', 'srli x5, x6, -1'],
     'unknown-register': ['add foo, x1, x2', 'add x1, foo, x2', 'add x1, x2, foo', 'addi x8, bar, 1', 'addi bar, x8, 1', 'sw x8, baz, 0', 'sw baz, x8, 0', 'lw x32, x2, 0',
                          'mv qux, x3', 'mv x8, qux', 'beqz quux, L0', 'beq x8, nope, L0', 'lui nope, 1', 'jal nope, L0', 'amoadd.w x8, x9, nope', 'lr.w nope, x8',
@@ -32,9 +34,16 @@ FAULTS = {
                              'WW = [7][1]', 'dw 1 if', 'li x8, {}[0]\nalign 4', 'lui x8, %hi([1][2])', 'dw int',
                              # malformed modifiers and character literals
                              'addi x8, x8, %lo', 'dw %offset', 'dw %position', 'dw %offset(', 'dw %offset(L0) + 4', 'dw %position(L0', 'lui x8, %hi', 'lui x8, %hi(', 'addi x8, x8, %lo()',
-                             "db '\\'\nalign 4", "db '\\x'\nalign 4", "li x8, '\\u12'\nalign 4", "QQ = '\\'", "dw 'ab'", "dw ''"],
-    'non-integer': ['addi x8, x8, 1.5', 'dw 2 / 1', 'ZZ = 1.5', 'addi x8, x8, "a"', 'dw 1e3', 'dw None', 'dw ()', 'dw [1]', 'dw "a" * 2', 'addi x8, x8, 1 < 2', 'dw 2 ** -1', 'dw lambda: 1'],
-    'error-directive': ['error boom', '  error this board is not supported # really', 'error see docs\\usage.txt', 'error C:\\new\\x', 'error trailing backslash \\'],
+                             "db '\\'\nalign 4", "db '\\x'\nalign 4", "li x8, '\\u12'\nalign 4", "QQ = '\\'", "dw 'ab'", "dw ''",
+                             # control characters in an operand (NUL-digit-NUL is what the lexer itself uses internally to shield character literals)
+                             'addi x8, x8, \x000\x00', 'dw \x005\x00', "li x8, '#' + \x001\x00\nalign 4", 'dw \x00', 'addi x8, x8, 1\x002',
+                             # unbalanced parentheses / a modifier where a plain reference is expected
+                             'lw x8, 4(x9', 'lw x8, 4(x9))', 'sw x8, 0(x9', 'sw x8, 0(x9))', 'jalr x0, 0(x1', 'c.lw x8, 0(x9\nc.nop', 'c.sw x8, 4(x9))\nc.nop',
+                             'j %offset(L0)', 'beqz x8, %offset(L0)', 'bgtu x5, x6, %offset(L0)', 'call %offset(L0)\nalign 4'],
+    'non-integer': ['addi x8, x8, 1.5', 'dw 2 / 1', 'ZZ = 1.5', 'addi x8, x8, "a"', 'dw 1e3', 'dw None', 'dw ()', 'dw [1]', 'dw "a" * 2', 'addi x8, x8, 1 < 2', 'dw 2 ** -1', 'dw lambda: 1', 'dw (1 << 20000,)', 'addi x8, x8, (10 ** 4400, 1)'],
+    'error-directive': ['error boom', '  error this board is not supported # really', 'error see docs\\usage.txt', 'error C:\\new\\x', 'error trailing backslash \\',
+                        # the parser takes the keyword in any case and after any whitespace
+                        'ERROR board not supported', 'Error two words', 'error\tboard not supported', '  ERROR\tindented and tabbed', 'error  two spaces'],
     'missing-include': ['include nothere.asm', 'include "sub/nothere.asm"'],
     'missing-include-bytes': ['include_bytes nothere.bin'],
 }
